@@ -128,6 +128,20 @@ class SimSocket(object):
         return 99
 
 
+class TlsLikeSocket(SimSocket):
+    """what ssl.SSLSocket adds: unwrap() fails while application data is still unread (as OpenSSL's shutdown does)"""
+
+    def unwrap(self):
+        import ssl
+        rest = self.run.steps[self.run.pos:]
+        if any(st[0] == "data" for st in rest) or self.next_recv is not None:
+            raise ssl.SSLError(1, "[SSL: APPLICATION_DATA_AFTER_CLOSE_NOTIFY] application data after close notify")
+        return self
+
+    def pending(self):
+        return 0
+
+
 class SimSelector(object):
     def __init__(self, sock, run):
         self.sock = sock
@@ -265,7 +279,7 @@ def run_impl(sc, url="ws://example.test/chat", ws_kwargs=None, check_alias=True)
                 self._socket_fail("unable to connect")
             if how == "exc":
                 raise ValueError("connect exploded")
-            run.sock = SimSocket(run)
+            run.sock = (TlsLikeSocket if sc.get("tls_like") else SimSocket)(run)
             return run.sock, None
 
         def _selector_cls(self, sock):
